@@ -74,6 +74,37 @@ def term_methods(program) -> Dict[str, Dict]:
     return out
 
 
+_FN_TOKEN = None
+
+
+def _template_vocab_problems(fn, dialect, vocab):
+    """function names and CAST types in the literal text of a formatter's templates must belong to the dialect"""
+    import re
+    out = []
+    types = facts.POSTGRESQL_TYPES if dialect.name == "PostgreSQLModel" else None
+    for t in sqlexpr.fold_function(fn):
+        text = sqlexpr.render(t)
+        lit = "".join(v if k == "lit" else " § " for k, v in t)
+        for m in re.finditer(r"([A-Za-z_][A-Za-z_0-9]*)\s*\(", lit):
+            name = m.group(1)
+            if name.lower() in facts.SQL_SYNTAX_WORDS:
+                continue
+            if name.lower() not in vocab:
+                out.append((name, f"{name}(...) is neither a built-in of {dialect.name} nor registered for it", text))
+        if types is not None:
+            for m in re.finditer(r"\bAS\s+([A-Za-z][A-Za-z0-9 ]*?)\s*\)", lit):
+                ty = m.group(1).strip().upper()
+                if ty not in types:
+                    out.append((ty, f"CAST(... AS {ty}) names a type that {dialect.name} does not have", text))
+            # configured type names
+            for k, v in t:
+                if k == "opaque" and v.endswith(".float_type"):
+                    ft = dialect.const_kwarg("float_type")
+                    if ft is not None and str(ft).upper() not in types:
+                        out.append((str(ft), f"configured float_type {ft!r} is not a {dialect.name} type", text))
+    return out
+
+
 def _sql_s1(program, res, dialect: sqlexpr.Dialect, rows, registered, tmeth):
     model = dialect.name
     vocab = facts.SQLITE_BUILTINS | {k.lower() for k in registered} if model == "SQLiteModel" else facts.POSTGRESQL_BUILTINS
@@ -92,7 +123,13 @@ def _sql_s1(program, res, dialect: sqlexpr.Dialect, rows, registered, tmeth):
                 res.fail("C05-S1", f"{dialect.module.name}:{model}", f"catalog:{op}:formatter",
                          f"{inst} resolves to a formatter entry `{unparse(info[1])}` that is not a function", dialect.module.relpath, 0)
             else:
-                res.ok("C05-S1", inst, {"formatter": getattr(fn, "name", "lambda")})
+                probs = _template_vocab_problems(fn, dialect, vocab)
+                if probs:
+                    res.fail("C05-S1", f"{info[0].name}:{getattr(fn, 'name', 'lambda')}", f"catalog:{op}:template:{probs[0][0]}",
+                             f"{inst} is formatted by {getattr(fn, 'name', 'lambda')} into `{probs[0][2][:80]}`; {probs[0][1]}",
+                             info[0].relpath, getattr(fn, "lineno", 0))
+                else:
+                    res.ok("C05-S1", inst, {"formatter": getattr(fn, "name", "lambda")})
             continue
         name = info
         if name in facts.SQL_INLINE_OPERATORS:
